@@ -224,6 +224,48 @@ PROPS = {
                         "timeouts (4-6 s) stand for 'never'"],
         "trusted_base": ["model: lean/CliUtils/Model/{Funnel,Reporter}.lean (hand-written; reduction: 'receive on counterCh then test the exit condition' is one atomic step)"],
     },
+    "C18": {
+        "level_text": ("Machine-checked Lean 4 theorems over an executable model of jsonpath.Get/Set (child, index and wildcard steps) and of "
+                       "ApplyTimeMutator.Mutate: after a Set every matched field holds the written value, every field neither inside nor above "
+                       "a matched field is unchanged, every node outside the matched fields keeps kind/keys/length, key uniqueness is "
+                       "preserved, a path without match changes nothing; strings.ReplaceAll = Join(Split) with token-free pieces; a successful "
+                       "substitution implies every acceptance condition (so each rejection branch is an error without output object) and its "
+                       "result is exactly that Set. For all trees, paths, values, tokens. The model (including the identity modelling of the "
+                       "marshal/ajson/yaml.v3 glue) is tied to the code by running the real jsonpath.Get/Set, readFieldValue/writeFieldValue/"
+                       "valueToString and the real Mutate on the same inputs and comparing every output."),
+        "level_note": ("Trusted: Lean kernel (+propext, Quot.sound, Classical.choice), the hand-written model, the Go harness and driver. "
+                       "Known finding C18.array-length (ajson `length` pseudo-node on arrays): real behaviour modelled, read-back theorems carry "
+                       "the decidable hypothesis lenFree (`_partial`), witness theorem set_get_fails_in_region. Not modelled: '..', slices, "
+                       "unions, filters, scripts, `$` as a Set target, negative/non-canonical index texts after a wildcard (ajson resolves them "
+                       "against the first array only), member names with control characters inside expressions, annotation YAML parsing."),
+        "technique": "Lean 4 proof (induction over paths / strings, case analysis of Mutate) + differential correspondence against the real Go code",
+        "domains": ["jsonpath", "mutate"],
+        "rule": ("jsonpath: one fixed tree x every path of length <= 2 (quick) / <= 3 (thorough) over a 15-step alphabet x 3 values "
+                 "(exhaustive), plus random trees (depth <= 4: nested maps/lists, number-/bool-/null-/YAML-looking strings, ints up to "
+                 "+-2^63 and uint64, floats 1e21/1e-7/5e-324/2^63/2^64, unicode incl. U+0085/U+2028/BOM, empty containers, odd keys) x "
+                 "paths (existing leaf/container, missing key, index out of range, negative index, through a scalar, wildcard, `length`) "
+                 "x written values of every type, through the real jsonpath.Get/Set and readFieldValue/writeFieldValue/valueToString; "
+                 "mutate: random target and source objects, 1-3 substitutions, with/without token, sources in cache (current/stale) or "
+                 "cluster or missing, explicit/implicit namespace, by apiVersion or group, self-references, unknown kinds/versions, "
+                 "absent/invalid annotation, through the real ApplyTimeMutator.Mutate (annotation written by mutation.WriteAnnotation). "
+                 "A case is non-trivial if the path matches at least one node (jsonpath) or the annotation is present and valid (mutate); "
+                 "distinct = distinct canonical input JSON."),
+        "exhaustive_quick": False,
+        "explanation": ("Theorems: set_get(_partial), set_at_matches, set_below_matches, set_frame, set_skeleton, set_preserves_wf, "
+                        "set_no_match_unchanged, replaceAll_spec/split_join/split_pieces_tokfree/replaceAll_leftmost/"
+                        "replaceAll_no_token_identity, mutateOne_ok (success implies every acceptance condition), mutate_rejects_* (one per "
+                        "rejection branch), mutate_effect/_frame/_readback_partial/_wf, mutate_error_no_output. Tie: every output of the real "
+                        "code is compared with the model's; the predicates jpSpec/mutSpec (own path evaluation and confinement check on the "
+                        "canonical JSON, Lean's String.replace) are evaluated on the implementation's outputs: read-back yields the written "
+                        "value, the change is confined to the denoted fields, found = number of denoted fields, exactly-one-match on read and "
+                        "write, each must-reject situation yields an error with the object untouched."),
+        "assumptions": ["canonical JSON: numbers compared as the decimal literal encoding/json writes (a float64 whose literal is an integer "
+                        "in [-2^63, 2^64-1] is that integer); object member order irrelevant",
+                        "REST mapper and dynamic client are the apimachinery DefaultRESTMapper and client-go fake; the resource cache is the real ResourceCacheMap"],
+        "trusted_base": ["model: lean/CliUtils/Model/{JTree,Mutate}.lean (hand-written; ajson path evaluation, encoding/json rendering, "
+                         "strings.ReplaceAll modelled; the marshal->ajson->yaml.v3->unmarshal glue modelled as identity and checked by the correspondence run)",
+                         "harness/overlay/c18_mutator_export.go (exports readFieldValue/writeFieldValue/valueToString via go build -overlay)"],
+    },
 }
 
 _KS_TRUSTED = ["model: lean/CliUtils/Model/{Json,Status}.lean (hand-written from pkg/kstatus/status/{status,generic,core,util}.go and the "
@@ -314,46 +356,4 @@ PROPS["C09"] = {
                     "unchanged, pure, status in the four values, condition shape) is evaluated on the implementation's outputs."),
     "assumptions": _KS_ASSUME,
     "trusted_base": _KS_TRUSTED,
-    "C16": {
-        "level_text": ("Machine-checked Lean 4 theorems about (1) the event multiplexer of the status watcher as a labelled transition system "
-                       "under every interleaving of its goroutines with cancellation, the owners of the input channels and the consumer "
-                       "(counter invariant, no send on / second close of the closed output, no stuck decrement or add, per-input FIFO with no "
-                       "loss or duplication, output closed only after cancellation and after every accepted input is closed and drained, "
-                       "termination measure, last event per object preserved) and (2) the sequential decision logic of ObjectStatusReporter "
-                       "(allow-list filter, handler output incl. NotFound for deletes, start/stop table as a closed form of the namespace / CRD / "
-                       "watch-error history per REST scope, watch-error classes, at most one error event with the once-guard). The model is tied "
-                       "to the code by trace inclusion: histories of the REAL eventFunnel driven by random goroutine programs must be accepted "
-                       "by the model's checker (proved sound), and the REAL DefaultStatusWatcher / ObjectStatusReporter over a fake dynamic client "
-                       "is compared with the model on schedule-independent observables."),
-        "level_note": ("Data races, goroutine leaks and deadlocks of the Go runtime cannot be exhibited by the model; they are observed by the "
-                       "harness only (recovered panics / dead child process, goroutine count before/after with settle time, timeouts), as "
-                       "supporting validation. The theorems are about the model: interleaving semantics with atomic channel rendezvous; informers, "
-                       "contexts and the fake API server are environment. Trusted: Lean kernel (+propext, Quot.sound, Classical.choice), the "
-                       "hand-written model, the Go harness (incl. its LIST/WATCH gate for the resourceVersion-less fake tracker) and the driver."),
-        "technique": "Lean 4 proof (invariants of a transition system, trace-checker soundness) + trace-inclusion / differential correspondence against the real Go code",
-        "domains": ["funnel", "watcher", "watcher-fatal"],
-        "rule": ("funnel: random programs (1-4 producers, 0-3 events each, add/send/close with seeded delays of 0-0.8 ms, cancellation at a random "
-                 "point, optionally slow consumer) run against the real eventFunnel, one case at a time in child processes; a case is non-trivial "
-                 "if it has >= 2 producers or >= 2 events. watcher: 6 hand-written reporter configurations + random scripts (2-9 mutation rounds of "
-                 "create/update/delete on watched and unwatched Pods, ConfigMaps, a Deployment in 2 namespaces, optional watched Namespace object "
-                 "deleted and re-created, optional CRD + custom resource installed/removed, root / namespace / automatic scope, optional slow "
-                 "LIST, racing (no barriers) or strict mode, cancellation at a random step in 1/6 of the cases); non-trivial if >= 2 mutations. "
-                 "watcher-fatal: LIST Forbidden on 0-3 of 3 watched kinds, both scopes, consumer delayed 0-30 ms, 48 trials (quick); quick runs 5000 funnel programs and 706 watcher scripts; "
-                 "non-trivial if >= 2 kinds fail. distinct = distinct canonical input JSON."),
-        "exhaustive_quick": False,
-        "timeout_quick": 300,
-        "explanation": ("Theorems: see level_text. Tie: (a) every observed history of the real funnel (successful / rejected adds, sends, input "
-                        "closes, cancel, output deliveries, output close; logged under a mutex at points where log order is a sound linearisation) "
-                        "is checked for acceptance by Model.Funnel.accepts, which is proved to accept only traces of the transition system; the "
-                        "property predicate (no panic, closed, no leak, each accepted input delivered once in order, closed only after cancel and "
-                        "after every accepted input was closed) is evaluated on the history independently of the model. (b) the real watcher runs "
-                        "scripted cluster histories; per-object event sequences, final statuses, sync/error counts, closure, the target list and (for "
-                        "directly configured reporters) the informer table are compared with Model.Reporter run on the same script, and the property "
-                        "(one sync after the initial LISTs, last event per watched object = status the library computes for its final version or "
-                        "NotFound, nothing for unwatched ids, at most one error, channel closed, no panic) is evaluated on the observations."),
-        "assumptions": ["the fake tracker has no resourceVersions, so the harness never mutates the cluster between an informer's LIST and its WATCH",
-                        "a Namespace / CRD is deleted the way a cluster does it: contents first",
-                        "timeouts (4-6 s) stand for 'never'"],
-        "trusted_base": ["model: lean/CliUtils/Model/{Funnel,Reporter}.lean (hand-written; reduction: 'receive on counterCh then test the exit condition' is one atomic step)"],
-    },
 }
